@@ -178,7 +178,7 @@ def main():
 
     # ---- 3-5. run, compare, judge
     oc = evaluate(prop, us, timeout=getattr(prop, "CASE_TIMEOUT", 60))
-    extra = prop.extra_checks(rng, tier, us, oc) if hasattr(prop, "extra_checks") and not args.replay else []
+    extra = prop.extra_checks(rng, tier, us, oc) if hasattr(prop, "extra_checks") else []
     # extra: list of {"text":..., "units":[...], "kind": "judge"|"corr"} property-level checks (metamorphic pairs, histories...)
 
     # ---- 6. classify
